@@ -1,4 +1,123 @@
-Require Import KV.Sdd.Model KV.Sdd.Sem KV.Sdd.Spec.
-Theorem C07_placeholder : den mgr_new 1 (fun _ => false) = true.
-Proof. reflexivity. Qed.
-Print Assumptions C07_placeholder.
+(* C07 - Decision-diagram operations are exact, canonical and interruption-safe.
+   Only the property theorems; each is closed by `exact <lemma>` and followed by Print Assumptions.
+   Model: Model.v (shared/src/sdd.rs, diff_sdd.rs); denotation: Sem.v; Spec: Spec.v; histories: History.v.
+
+   Reading guide.  `den m id sigma` is the value of handle `id` of manager `m` under assignment sigma.
+   `MInv m` is the manager invariant (arena well formed: the primes of every Decision node are pairwise
+   disjoint and jointly exhaustive; unique table, apply cache and negate cache semantically correct).
+   `ext m m'`: m' has the arena of m plus appended nodes, same vtree and weights (so old handles keep
+   their meaning: `den_ext`).  A computation is run as `c (m, budget) = ((m', budget'), outcome)`; the
+   budget is (node limit, answers of the deadline callback at the successive checkpoints) and is
+   universally quantified everywhere: `unlimited` is the plain operation, anything else its try_* twin. *)
+Require Import KV.Sdd.Model KV.Sdd.Sem KV.Sdd.Spec KV.Sdd.History.
+Require Import KV.Sdd.Hoare KV.Sdd.MainProofs.
+
+(* (1) apply is exact: whatever the budget and the fuel, IF it returns a handle, the handle denotes
+   op(a, b); and whatever the outcome, the invariant holds afterwards and old handles are untouched. *)
+Theorem C07_apply_exact :
+  forall fuel m bud a b o m' bud' r,
+    MInv m -> validh m a -> validh m b ->
+    apply_f fuel a b o (m, bud) = ((m', bud'), r) ->
+    MInv m' /\ ext m m' /\
+    forall h, r = Ok h ->
+      validh m' h /\ forall sigma, den m' h sigma = bop_sem o (den m a sigma) (den m b sigma).
+Proof. exact apply_exact. Qed.
+Print Assumptions C07_apply_exact.
+
+Theorem C07_negate_exact :
+  forall fuel m bud a m' bud' r,
+    MInv m -> validh m a ->
+    negate_f fuel a (m, bud) = ((m', bud'), r) ->
+    MInv m' /\ ext m m' /\
+    forall h, r = Ok h -> validh m' h /\ forall sigma, den m' h sigma = negb (den m a sigma).
+Proof. exact negate_exact. Qed.
+Print Assumptions C07_negate_exact.
+
+Theorem C07_literal_exact :
+  forall m bud v pol m' bud' r,
+    MInv m ->
+    literal v pol (m, bud) = ((m', bud'), r) ->
+    MInv m' /\ ext m m' /\
+    forall h, r = Ok h -> validh m' h /\ forall sigma, den m' h sigma = Bool.eqb (sigma v) pol.
+Proof. exact literal_exact. Qed.
+Print Assumptions C07_literal_exact.
+
+(* exactly_one denotes "exactly one of the listed variables is true" (counted with multiplicity) *)
+Theorem C07_exactly_one_exact :
+  forall fuel m bud vars m' bud' r,
+    MInv m ->
+    exactly_one fuel vars (m, bud) = ((m', bud'), r) ->
+    MInv m' /\ ext m m' /\
+    forall h, r = Ok h ->
+      validh m' h /\ forall sigma, den m' h sigma = Nat.eqb (count_true (map sigma vars)) 1.
+Proof. exact exactly_one_exact. Qed.
+Print Assumptions C07_exactly_one_exact.
+
+(* old handles keep their denotation when the manager grows, and registering a variable (vtree
+   growth, in any order, at any time) preserves the invariant and every denotation *)
+Theorem C07_extension_stable :
+  forall m m' id sigma, validh m id -> ext m m' -> den m' id sigma = den m id sigma.
+Proof. exact den_ext. Qed.
+Print Assumptions C07_extension_stable.
+
+Theorem C07_new_variable :
+  forall v p n k m, MInv m ->
+    MInv (ensure_variable_weights v p n k m) /\
+    forall id sigma, den (ensure_variable_weights v p n k m) id sigma = den m id sigma.
+Proof.
+  intros v p n k m Hi. split; [now apply MInv_ensure|].
+  intros id sigma. unfold den. now rewrite (proj1 (ensure_nodes v p n k m)).
+Qed.
+Print Assumptions C07_new_variable.
+
+(* (2) budget: a call (literal / apply / negate / exactly_one) run under ANY (node limit, deadline
+   answers) ends in a manager satisfying the invariant and extending the old one -- whether it returned
+   Ok, DeadlineExceeded, NodeBudgetExceeded (or, in the model, ran out of fuel or hit a Rust panic
+   path) -- and if it returned Ok r2 then r2 denotes the same function as the result r1 of the plain
+   (unlimited) call. *)
+Theorem C07_budget :
+  forall fuel fuel' c m bud m1 b1 r1 m2 b2 res2,
+    MInv m -> call_ok m c ->
+    run_call fuel c (m, unlimited) = ((m1, b1), Ok r1) ->
+    run_call fuel' c (m, bud) = ((m2, b2), res2) ->
+    MInv m2 /\ ext m m2 /\
+    forall r2, res2 = Ok r2 -> validh m2 r2 /\ forall sigma, den m2 r2 sigma = den m1 r1 sigma.
+Proof. exact budget_safe. Qed.
+Print Assumptions C07_budget.
+
+(* Exactness and interruption safety over whole histories: starting from the empty manager, for
+   every sequence of variable registrations (any order, interleaved), literal, and, or, negate,
+   exactly_one operations, each plain or under an arbitrary budget (so any of them may be interrupted
+   at any checkpoint or by any node limit), the final manager satisfies the invariant and EVERY handle
+   slot denotes exactly the Boolean function of its formula (a slot whose operation did not return
+   Ok holds the FALSE handle and the formula FALSE).  In particular operations that come after an
+   exhausted one are still exact. *)
+Theorem C07_history_exact :
+  forall fuel ops s outs,
+    run_from fuel rinit ops = (s, outs) ->
+    MInv (rm s) /\
+    forall i sigma, den (rm s) (hnd s i) sigma = feval sigma (frm s i).
+Proof. exact history_exact. Qed.
+Print Assumptions C07_history_exact.
+
+(* ---- non-vacuity ------------------------------------------------------------------------------------ *)
+(* the empty manager satisfies the invariant *)
+Example C07_inv_inhabited : MInv mgr_new.
+Proof. exact MInv_new. Qed.
+
+(* a history with three variables introduced in the order 2,0,1; (x0&x1)|(x0&x2) is built, then the
+   same disjunction is requested with the deadline expiring at the 5th checkpoint (DeadlineExceeded,
+   code 1), with a node budget of 9 (NodeBudgetExceeded, code 2: nine nodes exist already ... the
+   result is cached by then, so it succeeds), and finally negated.  Codes: 0 = Ok. *)
+Example C07_example :
+  let ops := [OVar 2 (1#2) (1#2) Indep; OVar 0 (1#2) (1#2) Indep; OVar 1 (1#2) (1#2) Indep;
+              OLit 0 true None; OLit 1 true None; OLit 2 true None;
+              OApply 0 1 And None; OApply 0 2 And None;
+              OApply 3 4 Or (Some (None, [true; true; true; true; false]));
+              OApply 3 4 Or (Some (Some 9, []));
+              OApply 3 4 Or None;
+              ONeg 7 (Some (Some 100, []))]%N in
+  map (fun x => fst (fst (fst x))) (snd (run_from 100 rinit ops)) = [9; 9; 9; 0; 0; 0; 0; 0; 1; 2; 0; 0]%N
+  /\ map (fun f => table_of 3 (fun sg => feval sg f)) (rf (fst (run_from 100 rinit ops)))
+     = [170; 204; 240; 136; 160; 0; 0; 168; 87]%N.
+Proof. vm_compute. split; reflexivity. Qed.
